@@ -1076,6 +1076,35 @@ func runC13Mand(c *Ctx) {
 				if par.Pos() <= kl.rs.End() && par.End() >= kl.rs.End() {
 					continue // ancestors shared with the loop
 				}
+				if sw, isSw := par.(*ast.SwitchStmt); isSw && sw.Tag == nil {
+					// a tagless switch is an if / else-if chain: the check lies in one clause, behind the negation of
+					// every earlier clause's conditions and under its own
+					for _, st := range sw.Body.List {
+						cc, isCC := st.(*ast.CaseClause)
+						if !isCC {
+							continue
+						}
+						mine := cc.Pos() <= h.n.Pos() && h.n.End() <= cc.End()
+						for _, e := range cc.List {
+							switch g := guardSense(e, guardVars); {
+							case mine && (g == "absent" || g == "mentions"):
+							case mine:
+								bad = "it is only reached under `case " + exprStr(e) + "`"
+							case g == "present" || g == "mentions":
+								// skipped when the alternative is present: the check is on the absent side
+							default:
+								bad = "it is not reached when `case " + exprStr(e) + "` of the enclosing switch holds, which is not the presence of the documented alternative"
+							}
+							if bad != "" {
+								break
+							}
+						}
+						if mine || bad != "" {
+							break
+						}
+					}
+					continue
+				}
 				ifs, ok := par.(*ast.IfStmt)
 				if !ok {
 					continue
